@@ -163,7 +163,8 @@ def truth(env, v):
         if v.sort == 'bool': return cond(z3.And(z3.Not(v.n), v.t))
         if v.sort == 'int': return cond(z3.And(z3.Not(v.n), v.t != 0))
         if v.sort == 'real': return cond(z3.And(z3.Not(v.n), v.t != 0))
-        if v.sort == 'str': return cond(z3.And(z3.Not(v.n), z3.Length(v.t) > 0))
+        if v.sort == 'str':
+            return cond(z3.And(z3.Not(v.n), z3.Length(v.t) > 0))
     if isinstance(v, ERef): return cond(z3.Not(pk_of(env, v).n))
     if isinstance(v, (Coll, Bag)): return cond(z3.Or([g for g, _ in v.items]) if v.items else FALSE)
     raise Unmodelled('truth value of %r' % (v,))
@@ -176,6 +177,8 @@ def as_data(v):
 
 
 def is_none(env, v):
+    if isinstance(v, SV) and v.sort == 'str' and env.dialect == 'Oracle':
+        env.region('oracle-empty-string-is-null', z3.And(z3.Not(v.n), z3.Length(v.t) == 0))
     if isinstance(v, SV): return TRUE if v.sort == 'null' else v.n
     if isinstance(v, ERef): return pk_of(env, v).n
     raise Unmodelled('None test of %r' % (v,))
@@ -206,9 +209,13 @@ def cmp_values(env, op, a, b):
         if op in ('==', '!='):
             o = b if a.sort == 'null' else a
             n = TRUE if o.sort == 'null' else o.n
+            if env.dialect == 'Oracle' and o.sort == 'str':
+                env.region('oracle-empty-string-is-null', z3.And(z3.Not(o.n), z3.Length(o.t) == 0))
             return cond(n if op == '==' else z3.Not(n))
         env.undefined.append(TRUE)
         return cond(FALSE, TRUE)
+    if env.dialect == 'Oracle' and a.sort == 'str' and b.sort == 'str':
+        env.region('oracle-empty-string-is-null', z3.Or(z3.And(z3.Not(a.n), z3.Length(a.t) == 0), z3.And(z3.Not(b.n), z3.Length(b.t) == 0)))
     sqlop = {'==': '=', '!=': '<>', '<': '<', '<=': '<=', '>': '>', '>=': '>='}[op]
     fake = _FakeEnv(env.dialect)
     r = sqlsem.compare(sqlop, _plain(a), _plain(b), fake)
@@ -250,6 +257,8 @@ def arith(env, op, a, b):
             yy = z3.If(y.t == 0, z3.IntVal(1), y.t)
             if op in ('//', '%'):
                 env.region('floordiv-mod-negative-operand', z3.And(z3.Not(n), z3.Or(x.t < 0, y.t < 0)))
+                if op == '//' and env.dialect in ('MySQL', 'Oracle'):
+                    env.region('floordiv-rendered-as-real-division', z3.And(z3.Not(n), fmod(x.t, yy) != 0))
             else:
                 env.region('int-true-division-truncates', z3.And(z3.Not(n), fmod(x.t, yy) != 0))
             if op == '//': return SV('int', fdiv(x.t, yy), n)
@@ -325,6 +334,8 @@ def contains(env, item, container_node):
             item = as_data(item)
             if not (isinstance(item, SV) and item.sort in ('str', 'null')): raise Unmodelled('substring test of a non-string')
             if item.sort == 'null': return cond(FALSE, TRUE)
+            if env.dialect == 'Oracle':
+                env.region('oracle-empty-string-is-null', z3.Or(z3.And(z3.Not(c.n), z3.Length(c.t) == 0), z3.And(z3.Not(item.n), z3.Length(item.t) == 0)))
             return cond(z3.Contains(c.t, item.t), z3.Or(c.n, item.n))
         else: raise Unmodelled('membership in %r' % (c,))
     if not vals: return cond(FALSE)
@@ -579,6 +590,8 @@ def _call(node, env):
             if recv.sort == 'null': raise Unmodelled('method of None')
             args = [as_data(ev(a, env)) for a in node.args]
             if m in ('startswith', 'endswith') and len(args) == 1 and isinstance(args[0], SV) and args[0].sort == 'str':
+                if env.dialect == 'Oracle':
+                    env.region('oracle-empty-string-is-null', z3.Or(z3.And(z3.Not(recv.n), z3.Length(recv.t) == 0), z3.And(z3.Not(args[0].n), z3.Length(args[0].t) == 0)))
                 t = z3.PrefixOf(args[0].t, recv.t) if m == 'startswith' else z3.SuffixOf(args[0].t, recv.t)
                 return cond(t, z3.Or(recv.n, args[0].n))
             if m == 'upper' and not args: return SV('str', sqlsem.UPPER(recv.t), recv.n)
@@ -623,5 +636,9 @@ def eval_query(tree, env):
             nullrow = sqlsem.NullRow(env.S.tables[tinfo.table][0])
             rows.append((z3.And(g, v.pk.n), [ERef(v.ent, row=nullrow)]))
             continue
+        if env.dialect == 'Oracle':
+            for v in vals:
+                if isinstance(v, SV) and v.sort == 'str':
+                    env.region('oracle-empty-string-is-null', z3.And(g, z3.Not(v.n), z3.Length(v.t) == 0))
         rows.append((g, vals))
     return rows
